@@ -11,6 +11,9 @@ use super::{
 };
 use crate::names::*;
 
+/// Number of argument buffers that an entry point can receive bindings from
+const ARGUMENT_BUFFER_COUNT: usize = 4;
+
 /// Generate the entry point and helper structs for a pipeline definition
 pub(crate) fn generate_pipeline(
     def: Option<&ir::PipelineDefinition>,
@@ -50,7 +53,7 @@ pub(crate) fn generate_pipeline(
         }
     }
 
-    pub const ARGUMENT_BUFFER_NAMES: &[&str] = &[
+    pub const ARGUMENT_BUFFER_NAMES: [&str; ARGUMENT_BUFFER_COUNT] = [
         ARGUMENT_BUFFER_0_NAME,
         ARGUMENT_BUFFER_1_NAME,
         ARGUMENT_BUFFER_2_NAME,
@@ -956,6 +959,11 @@ fn analyse_bindings(
             };
 
             if let Some(api_slot) = decl.api_slot {
+                // Each bind group becomes one of the argument buffers that the entry point declares
+                if api_slot.set as usize >= ARGUMENT_BUFFER_COUNT {
+                    return Err(GenerateError::UnsupportedArgumentBuffer(api_slot.set));
+                }
+
                 let binding = DescriptorBinding {
                     name: module.get_global_name(*id).to_string(),
                     api_binding: api_slot.location,
